@@ -2790,6 +2790,7 @@ def allclose_units(actual, desired, rtol=1e-7, atol=0, **kwargs):
     # Create a copy to ensure this function does not alter input arrays
     act = unyt_array(actual)
     des = unyt_array(desired)
+    desired_units = des.units
 
     try:
         des = des.in_units(act.units)
@@ -2801,7 +2802,11 @@ def allclose_units(actual, desired, rtol=1e-7, atol=0, **kwargs):
         raise RuntimeError(f"Units of rtol ({rt.units}) are not dimensionless")
 
     if not isinstance(atol, unyt_array):
-        at = unyt_quantity(atol, des.units)
+        # a bare atol is a difference in desired's own units (see docstring);
+        # des has already been converted to act.units at this point
+        one = unyt_quantity(1.0, desired_units).in_units(act.units).value
+        zero = unyt_quantity(0.0, desired_units).in_units(act.units).value
+        at = unyt_quantity(atol * (one - zero), act.units)
     else:
         at = atol
 
